@@ -207,12 +207,11 @@ def main():
     props = [a for a in sys.argv[1:] if a.upper() in ("C07", "C17")]
     subs = [a for a in sys.argv[1:] if a.upper() not in ("C07", "C17")]
     bad = 0
-    for v in V:
-        if props and v[0] not in [p.upper() for p in props]:
-            continue
-        if subs and not any(s in v[2] for s in subs):
-            continue
-        st, msg = run_variant(v)
+    sel = [v for v in V if (not props or v[0] in [p.upper() for p in props]) and (not subs or any(s in v[2] for s in subs))]
+    from concurrent.futures import ThreadPoolExecutor
+    with ThreadPoolExecutor(max_workers=int(os.environ.get("VERIF_JOBS", "8"))) as ex:
+        results = list(ex.map(run_variant, sel))
+    for v, (st, msg) in zip(sel, results):
         if st != "ok":
             bad += 1
         print(f"SELFTEST {v[0]} {v[1]} [{v[2]}] {st}: {msg}")
